@@ -124,6 +124,11 @@ class TracerTwin(BoundedCheck):
         res.cover('trace-off')
         if any(not tr.is_empty() for tr in off['trace']):
             bad('with tracing off no trace is written', 'c17.trace-written-when-off', 'empty', 'non-empty', 'trace_only_if_requested')
+        # a traced solve of one period writes that period's trace only
+        if case['entry'] in ('solve_t', 'solve_period'):
+            others = [i for i, tr in enumerate(traced['trace']) if i != 2 and not tr.is_empty()]
+            if others:
+                bad('the trace of a period holds the snapshots of that period only', 'c17.trace-of-another-period-written', [], others, 'snapshot')
         # label sequence and snapshots of the traced run (single solve of period index 2, default reset=False)
         if not case['repeat'] and case['entry'] in ('solve_t', 'solve_period'):
             tr = traced['trace'][2]
